@@ -116,12 +116,14 @@ def check_agent(ctx: Ctx, case):
 
 @st.composite
 def env_cases(draw):
-    first = draw(st.one_of(st.floats(1e-6, 1e6, allow_nan=False), st.sampled_from([1.0, 0.5, 100.0, -2.0])))
+    first = draw(st.one_of(st.floats(1e-6, 1e6, allow_nan=False), st.sampled_from([1.0, 0.5, 100.0, -2.0, 0.0, 0.0, -0.0])))
     obs = []
     cur = first
     for _ in range(draw(st.integers(1, 15))):
-        how = draw(st.sampled_from(["improve", "equal", "worse", "free"]))
-        if how == "improve":
+        how = draw(st.sampled_from(["improve", "equal", "worse", "free", "zero"]))
+        if how == "zero":
+            v = 0.0     # a perfect fit: from then on the reference best is exactly zero
+        elif how == "improve":
             v = cur * draw(st.floats(0.001, 0.999, allow_nan=False)) if cur > 0 else cur - draw(st.floats(0.001, 5))
         elif how == "equal":
             v = cur
